@@ -19,8 +19,11 @@ STORES = {
     "rock": dict(cache_mem="0 MB", cache_dirs=["rock {run}/rock 4 slot-size=4096 max-size=400000"], conf="acl purge method PURGE\n"),
     # memory cache in front of rock: a hit may take its first bytes from memory and continue from disk part-way through the entry
     # (tcp_recv_bufsize keeps the proxy from pushing a whole object into the socket of a reader that stops reading)
-    "rock+mem": dict(cache_mem="8 MB", cache_dirs=["rock {run}/rock 16 slot-size=4096 max-size=400000"],
-                     conf="maximum_object_size_in_memory 32 KB\ntcp_recv_bufsize 8192 bytes\nacl purge method PURGE\n"),
+    # a small memory cache in front of a larger rock dir: "fill" operations push the memory copies out while the disk copies
+    # stay, and a reader that goes away early leaves a memory prefix of a disk entry behind (the next hit is served from
+    # memory first and continues on disk in the middle of the entry)
+    "rock+mem": dict(cache_mem="1 MB", cache_dirs=["rock {run}/rock 32 slot-size=4096 max-size=400000"],
+                     conf="maximum_object_size_in_memory 512 KB\ntcp_recv_bufsize 8192 bytes\nacl purge method PURGE\n"),
     "shm": dict(cache_mem="4 MB", workers=2, conf="memory_cache_shared on\nmaximum_object_size_in_memory 512 KB\nacl purge method PURGE\n"),
 }
 ORDER = ["memory", "ufs", "aufs", "diskd", "rock", "shm", "rock+mem"]
@@ -46,6 +49,13 @@ def strategy(tp):
         st.fixed_dictionaries({"op": st.just("partial"), "u": st.integers(0, nurl - 1), "read": st.sampled_from([1, 2000, 9000, 30000, 60000, 130000])}),
         st.fixed_dictionaries({"op": st.just("fill"), "n": st.integers(3, 14), "size": st.sampled_from([30000, 150000, 300000])}),
     )
+    if store == "rock+mem":
+        # this store's own hazard is the hand-over between a memory prefix and the disk remainder of one entry: more
+        # early-leaving readers, and fillers large enough to empty the 1 MB memory cache
+        g = st.fixed_dictionaries({"op": st.just("get"), "u": st.integers(0, nurl - 1)})
+        pr = st.fixed_dictionaries({"op": st.just("partial"), "u": st.integers(0, nurl - 1), "read": st.sampled_from([1, 2000, 9000, 30000, 60000, 130000])})
+        fl = st.fixed_dictionaries({"op": st.just("fill"), "n": st.integers(4, 8), "size": st.sampled_from([300000, 150000, 300000])})
+        op = st.one_of(g, pr, fl, g, pr, fl, op)
     return st.fixed_dictionaries({
         "store": st.just(store),
         "sizes": st.lists(st.lists(size, min_size=1, max_size=4), min_size=nurl, max_size=nurl),
@@ -189,7 +199,7 @@ def execute(envs, sc):
         if kind == "partial":
             from vlib.e2e import client as _client
             try:
-                pc = _client.Conn(env.port, timeout=10)
+                pc = _client.Conn(env.port, timeout=10, rcvbuf=4096)
                 pc.send(("GET %s HTTP/1.1\r\nHost: x\r\nConnection: close\r\n\r\n" % url).encode())
                 dl = time.time() + 8
                 while len(pc.rbuf) < op["read"] and not pc.eof and time.time() < dl:
